@@ -38,7 +38,7 @@ def plan(tier, seed):
 
 
 def mandatory(tier):
-    return ["ac/True", "ac/False", "D/2", "D/3", "compose_affine", "compose_after_other_convention", "batch>1", "bracket", "bch_commuting", "bch_noncommuting", "bch_series_terms", "bracket/options/sigma", "bracket/options/sigma+spacing", "bracket/options/spacing", "logv", "logv/bch_terms/0", "logv/bch_terms/1", "logv/bch_terms/2", "logv/bch_terms/3"] + [f"bch_terms/{k}" for k in range(6)]
+    return ["ac/True", "ac/False", "D/2", "D/3", "compose_affine", "compose_after_other_convention", "batch>1", "bracket", "bch_commuting", "bch_noncommuting", "bch_series_terms", "bracket/options/sigma", "bracket/options/sigma+spacing", "bracket/options/spacing", "bracket/options/per_item_spacing", "logv", "logv/bch_terms/0", "logv/bch_terms/1", "logv/bch_terms/2", "logv/bch_terms/3"] + [f"bch_terms/{k}" for k in range(6)]
 
 
 def to_samples(w, shape, ac):
@@ -135,6 +135,19 @@ def run_item(ctx, item):
         for k in range(6):  # derivative options are passed to every bracket alike: commuting fields stay commuting
             w = U.compose_svfs(ca * base, cb * base, bch_terms=k, sigma=sg, mode=["central", "sobel", None][k % 3])
             ctx.close("bch_of_commuting_fields_is_sum_with_options", w, (ca + cb) * base, (1e-10 if dtype == torch.float64 else 1e-5) * (1 + float(base.abs().max())), key="bch/commuting", bch_terms=k, sigma=sg, **info)
+        if N > 1:
+            # one spacing row per batch item: every item is differentiated with its own row, so commuting fields stay
+            # commuting and the batched bracket equals the items computed alone
+            ctx.bucket("bracket/options/per_item_spacing")
+            spt = torch.tensor(rng.uniform(0.3, 1.5, size=(N, D)), dtype=dtype)
+            for k in range(1, 6):
+                w = U.compose_svfs(ca * base, cb * base, bch_terms=k, spacing=spt)
+                ctx.close("bch_of_commuting_fields_is_sum_with_per_item_spacing", w, (ca + cb) * base, (1e-10 if dtype == torch.float64 else 1e-5) * (1 + float(base.abs().max())), key="bch/commuting", bch_terms=k, spacing="per-item", **info)
+            other = torch.tensor(np.stack([F.smooth_field(rng, shape, ac, 0.5) for _ in range(N)]), dtype=dtype)
+            lb_all = U.lie_bracket(base, other, spacing=spt)
+            for n_ in range(N):
+                lb_one = U.lie_bracket(base[n_ : n_ + 1], other[n_ : n_ + 1], spacing=tuple(float(q) for q in spt[n_]))
+                ctx.close("bracket_with_per_item_spacing_equals_item_alone", lb_all[n_ : n_ + 1], lb_one, (1e-10 if dtype == torch.float64 else 1e-5) * (1 + float(lb_one.abs().max())), key="bracket/per_item_spacing", item=n_, **info)
         try:
             U.compose_svfs(base, base, bch_terms=-1)
             ctx.true("negative_bch_terms_rejected", False, key="bch/validation")
